@@ -310,6 +310,53 @@ func t1() {
 	})
 	sb.WriteString("\nDefinition status_messages : list (Z * list byte) := [\n  " + strings.Join(pairs, ";\n  ") + "].\n")
 
+	// operator priority table: the type switch of internal/tagexpr.getPriority
+	{
+		_, f := parseFile("internal/tagexpr/expr.go")
+		var rows []string
+		def := "(-1)%Z"
+		ast.Inspect(f, func(n ast.Node) bool {
+			fd, ok := n.(*ast.FuncDecl)
+			if !ok || fd.Name.Name != "getPriority" {
+				return true
+			}
+			ast.Inspect(fd.Body, func(n ast.Node) bool {
+				cc, ok := n.(*ast.CaseClause)
+				if !ok {
+					return true
+				}
+				val := ""
+				for _, st := range cc.Body {
+					if rs, ok := st.(*ast.ReturnStmt); ok && len(rs.Results) == 1 {
+						if v, ok := evalConst(rs.Results[0], nil); ok {
+							val = "(" + v.ExactString() + ")%Z"
+						}
+					}
+				}
+				if val == "" {
+					val = "(-1)%Z" // unrecognised body: no side condition accepts a negative priority
+				}
+				if cc.List == nil {
+					def = val
+				}
+				for _, t := range cc.List {
+					name := "?"
+					if st, ok := t.(*ast.StarExpr); ok {
+						if id, ok := st.X.(*ast.Ident); ok {
+							name = id.Name
+						}
+					}
+					rows = append(rows, fmt.Sprintf("(%s, %s)", coqBytes(name), val))
+				}
+				return true
+			})
+			return false
+		})
+		sb.WriteString("\n(* internal/tagexpr/expr.go getPriority: node type name -> priority; default for everything else *)\n")
+		sb.WriteString("Definition tagexpr_priority : list (list byte * Z) := [\n  " + strings.Join(rows, ";\n  ") + "].\n")
+		sb.WriteString("Definition tagexpr_priority_default : Z := " + def + ".\n")
+	}
+
 	writeIfChanged("Tables.v", []byte(sb.String()))
 }
 
